@@ -11,6 +11,7 @@ import (
 
 	"github.com/ludo-technologies/pyscn/app"
 	"github.com/ludo-technologies/pyscn/domain"
+	"github.com/ludo-technologies/pyscn/internal/config"
 	"github.com/ludo-technologies/pyscn/internal/version"
 	"github.com/ludo-technologies/pyscn/service"
 	"github.com/spf13/cobra"
@@ -381,8 +382,22 @@ func (c *AnalyzeCommand) generateOutput(cmd *cobra.Command, response *domain.Ana
 		return err
 	}
 
-	// Generate filename with timestamp
 	targetPath := getTargetPathFromArgs(args)
+
+	// Without a format flag the [output] format of the configuration file applies.
+	// analyze has no text report: "text" (the built-in default of the key) keeps HTML.
+	if !c.html && !c.json && !c.csv && !c.yaml {
+		cfg, cfgErr := config.LoadConfigWithTarget(c.configFile, targetPath)
+		if cfgErr != nil {
+			return fmt.Errorf("failed to load configuration: %w", cfgErr)
+		}
+		switch cfg.Output.Format {
+		case "html", "json", "csv", "yaml":
+			format, extension = cfg.Output.Format, cfg.Output.Format
+		}
+	}
+
+	// Generate filename with timestamp
 	filename, err := generateOutputFilePath("analyze", extension, targetPath)
 	if err != nil {
 		return fmt.Errorf("failed to generate output path: %w", err)
